@@ -27,6 +27,12 @@ type LeaseService struct {
 	Log       func(ev string, node string, detail string)
 }
 
+// SetClusterID sets the cluster ID the lease service holds ("" = not initialised yet).
+func (ls *LeaseService) SetClusterID(id string) { ls.mu.Lock(); ls.clusterID = id; ls.mu.Unlock() }
+
+// ClusterID is the cluster ID the lease service holds.
+func (ls *LeaseService) ClusterID() string { ls.mu.Lock(); defer ls.mu.Unlock(); return ls.clusterID }
+
 // NewLeaseService returns a lease service with a TTL of 2s.
 func NewLeaseService() *LeaseService { return &LeaseService{TTL: 2 * time.Second} }
 
@@ -205,6 +211,8 @@ func (l *SimLease) Close() error {
 // FaultClient wraps the real HTTP client of a node; the harness can refuse or cut its streams and
 // observe every frame-level call.
 type FaultClient struct {
+	// LoseReleaseAnswer: DELETE /halt is executed by the primary, the caller is told it timed out
+	LoseReleaseAnswer atomic.Bool
 	Inner   *lhttp.Client
 	mu      sync.Mutex
 	blocked bool
@@ -268,7 +276,11 @@ func (c *FaultClient) AcquireHaltLock(ctx context.Context, primaryURL string, no
 }
 func (c *FaultClient) ReleaseHaltLock(ctx context.Context, primaryURL string, nodeID uint64, name string, lockID int64) error {
 	c.Calls.Add(1)
-	return c.Inner.ReleaseHaltLock(ctx, primaryURL, nodeID, name, lockID)
+	err := c.Inner.ReleaseHaltLock(ctx, primaryURL, nodeID, name, lockID)
+	if c.LoseReleaseAnswer.Load() {
+		return context.DeadlineExceeded // the primary executed the request; its answer never arrived
+	}
+	return err
 }
 func (c *FaultClient) Commit(ctx context.Context, primaryURL string, nodeID uint64, name string, lockID int64, r io.Reader) error {
 	c.Calls.Add(1)
